@@ -158,6 +158,24 @@ def run(ctx, replay):
         if not ok:
             ctx.violate("crash", "not-atomic:" + name, "after '%s' during a save the settings file is %s: neither the complete previous nor the complete new contents" % (name, st),
                         {"experiment": name, "strace": sargs, "syscalls": [e["op"] for e in events]})
+    # the very first save: no settings file exists yet; after a kill or a failed write the file is absent or complete
+    for name, sargs in [("first-save:kill-at-rename", ["-e", "trace=rename,renameat,renameat2", "-e", "inject=rename,renameat,renameat2:signal=KILL:when=1"]),
+                        ("first-save:enospc-on-every-write", ["-e", "trace=write", "-e", "inject=write:error=ENOSPC:when=1+"]),
+                        ("first-save:kill-at-fchmod", ["-e", "trace=fchmod", "-e", "inject=fchmod:signal=KILL:when=1"])]:
+        shutil.rmtree(sdir, ignore_errors=True)
+        child("/saveconfig?config=new&h=after", strace_args=sargs)
+        st, after = file_state()
+        ok = st in ("absent", "ok")
+        ctx.extra_cov.setdefault("crash_experiments", []).append({"experiment": name, "file": st, "complete_old_or_new": ok})
+        if not ok:
+            ctx.violate("crash", "not-atomic:" + name, "after '%s' during the FIRST save the settings file is %s: neither absent nor complete" % (name, st),
+                        {"experiment": name, "strace": sargs})
+        else:
+            # and the next save works
+            child("/saveconfig?config=again&f=x")
+            st2, _ = file_state()
+            if st2 != "ok":
+                ctx.violate("crash", "unusable-after:" + name, "the save after '%s' leaves the settings file %s" % (name, st2), {"experiment": name})
     if flagged and not any(v.get("check") == "crash" for v in ctx.violations):
         ctx.notes.append("TLC flags crash points %s of the recorded syscall sequence but no experiment reproduced a torn file (MODEL-ONLY; not reported as a violation)" % flagged)
     return ctx.finish(
